@@ -89,7 +89,8 @@ def mk_struct(kind, n, generic=False):
 DECOR = ["", "per-trait:bound()", "shared:bound()", "per-trait:bound(..)", "field0:T(bound())", "fieldlast:bound()", "field0:T(bound(..))"]
 
 
-def build(name, t, what, tr, fn, code, entry, decor=""):
+def build(name, t, what, tr, fn, code, entry, decor="", co=()):
+    """co: other operator traits derived on the same struct, (name, before|after|stacked)"""
     trait = tr + ("Assign" if what == "assign" else "")
     la = trait
     fs = t.variants[0].fields
@@ -101,9 +102,14 @@ def build(name, t, what, tr, fn, code, entry, decor=""):
         f = fs[0] if decor.startswith("field0") else fs[-1]
         f.extra_attrs.append("#[derive_ex(%s)]" % decor.split(":", 1)[1].replace("T(", trait + "("))
     t.shape += ("+" + decor) if decor else ""
+    stacked = [c for c, where in co if where == "stacked"]
+    la = ", ".join([c for c, where in co if where == "before"] + [la] + [c for c, where in co if where == "after"])
+    if co:
+        t.shape += "+co[%s]" % ",".join("%s:%s" % c for c in co)
     desc = "op=%s shape=%s entry=%s" % (la, t.shape, entry)
     src = e1.HEADER.format(pid=PID, name=name, desc=desc)
     pre = ["#[derive_ex(%s)]" % la] if entry == "attr" else ["#[derive(Ex)]", "#[derive_ex(%s)]" % la]
+    pre = pre[:1] + ["#[derive_ex(%s)]" % c for c in stacked] + pre[1:] if entry == "derive" else pre + ["#[derive_ex(%s)]" % c for c in stacked]
     src += t.item_text(pre) + "\n\n" + struct_helpers(t) + "\n" + t.mk_fn() + "\n"
     body = {"bin": check_bin, "assign": check_assign, "un": check_un}[what](tr, fn, code)
     src += "pub fn check<S: Src>(s: &mut S) {\n%s\n}\n\n" % "\n".join(body) + e1.harness(unwind=6)
@@ -149,6 +155,24 @@ def run(tier):
             continue
         seen.add(k)
         progs.append(build("p%05d" % len(progs), t, what, tr, fn, code, entry, extra))
+    # several operator traits derived on one struct: the tested trait after / before / next to other ones (same and other families)
+    names = [o[0] for o in BIN] + [o[0] + "Assign" for o in BIN] + [o[0] for o in UN]
+    combos = []
+    for i, op in enumerate(ops):
+        tested = op[1] + ("Assign" if op[0] == "assign" else "")
+        others = [x for x in names if x != tested]
+        first = others[(i * 7 + 3) % len(others)]
+        second = others[(i * 11 + 5) % len(others)]
+        combos.append((op, ((first, "before"),), "attr"))
+        if tier == "thorough" or i % 4 == common.seed() % 4:
+            combos.append((op, ((first, "after"),), "attr"))
+            combos.append((op, ((first, "before"), (second, "stacked")), "attr"))
+            combos.append((op, ((first, "stacked"),), "derive"))
+    for op, co, entry in combos:
+        what, tr, fn, code = op
+        for sh in ((("named", 2, False), ("tuple", 3, True)) if tier == "thorough" else (("named", 2, False),)):
+            t = mk_struct(*sh)
+            progs.append(build("p%05d" % len(progs), t, what, tr, fn, code, entry, "", co))
     out = common.Outcome(PID)
     extra = e3_extras.summary(e3_extras.safe(e3_extras.c08_tables, out))
     return e1.finish(
